@@ -116,8 +116,11 @@ package p9p
 //@ iface Codec.Unmarshal
 //@ params data v
 //@ use wire bytes
-//@ modifies alloc, E:uint8, E:string, E:p9p.Qid, p9p.Fcall.Type, p9p.Fcall.Tag, p9p.Fcall.Message
+//@ modifies alloc, E:uint8, E:string, E:p9p.Qid, p9p.Fcall.Type, p9p.Fcall.Tag, p9p.Fcall.Message, gh:$dynalloc
+//@ modifies p9p.Dir.Type, p9p.Dir.Dev, p9p.Dir.Qid, p9p.Dir.Mode, p9p.Dir.AccessTime, p9p.Dir.ModTime, p9p.Dir.Length, p9p.Dir.Name, p9p.Dir.UID, p9p.Dir.GID, p9p.Dir.MUID
 //@ ensures preserved("E:uint8")
+// data-sized allocations are linear in the input (verified for codec9p: (codec9p).Unmarshal#any, #dir)
+//@ ensures dynalloc() - old(dynalloc()) <= 4 * len(data) && dynalloc() >= old(dynalloc())
 //@ ensures !typeis(err, overflowErr)
 //@ ensures typeis(v, *Fcall) ==> (err == nil <==> decOk(bytes(data)))
 //@ ensures typeis(v, *Fcall) && err == nil ==> *v.(*Fcall) == decFcall(bytes(data))
@@ -1322,3 +1325,18 @@ package p9p
 // Stat records are accepted even when their size prefixes disagree with their content (the decoder does not compare
 // them), so for Rstat/Twstat the input need not be the canonical layout of the result; for all other kinds it is:
 //@ ensures consumed_layout: err == nil && !STAT ==> blen(layout(V)) <= len(data) && btake(old(bytes(data)), blen(layout(V))) == layout(V)
+
+// Unmarshal into a *Dir (the target DecodeDir uses): no panic on any input, allocation linear in the input.
+//@ func (codec9p).Unmarshal#dir
+//@ property C04
+//@ use bytes noassoc
+//@ dyn v : *Dir
+//@ requires v.(*Dir) != nil
+//@ ensures proportionate: dynalloc() - old(dynalloc()) <= 4 * len(data) && dynalloc() >= old(dynalloc())
+
+// DecodeDir reads one stat record from any reader: size[2], then size bytes, then decodes them.
+//@ func DecodeDir
+//@ property C04 C17
+//@ use bytes
+//@ requires codec != nil && d != nil
+//@ ensures proportionate: dynalloc() - old(dynalloc()) <= 5 * 65537
